@@ -37,7 +37,7 @@ LEVEL_TEXT = ('Every call of every built-in reset function (through the real fac
 LEVEL_NOTE = ('Trusted: the predicates in this module. Layout entries < 1, non-integer parameters and river object types other '
               'than Wall are outside the documented domain and not generated; crossing truncating num_rivers is accepted.')
 SHARDS = {'quick': 4, 'thorough': 16}
-BUDGET_S = {'quick': 60, 'thorough': 900}
+BUDGET_S = {'quick': 300, 'thorough': 2400}
 RULE = ('case = (reset function, parameters, seed or random-choice script). non-trivial = accepted parameters with at least one '
         'random draw, or rejected parameters; distinct by (function, parameters, resulting deep state encoding or exception).')
 ASSUMPTIONS = ['accepted => well-formed, otherwise ValueError; any other exception or a malformed state is a violation']
